@@ -70,6 +70,18 @@ namespace bloch::runtime {
             v.type = Value::Type::Long;
             v.longValue = v.intValue;
         }
+        // an array literal of ints written where long[] / float[] is declared (argument, field,
+        // assignment) becomes that array, as it does in a declaration
+        if (slotKind == Value::Type::LongArray && v.type == Value::Type::IntArray) {
+            v.type = Value::Type::LongArray;
+            v.longArray.assign(v.intArray.begin(), v.intArray.end());
+            v.intArray.clear();
+        }
+        if (slotKind == Value::Type::FloatArray && v.type == Value::Type::IntArray) {
+            v.type = Value::Type::FloatArray;
+            v.floatArray.assign(v.intArray.begin(), v.intArray.end());
+            v.intArray.clear();
+        }
         return v;
     }
     // A qubit handle is bound once, by the declaration that allocates it. The analyser rejects the
@@ -92,6 +104,14 @@ namespace bloch::runtime {
         if (auto prim = dynamic_cast<PrimitiveType*>(t)) {
             if (prim->name == "long")
                 return Value::Type::Long;
+        }
+        if (auto arr = dynamic_cast<ArrayType*>(t)) {
+            if (auto elem = dynamic_cast<PrimitiveType*>(arr->elementType.get())) {
+                if (elem->name == "long")
+                    return Value::Type::LongArray;
+                if (elem->name == "float")
+                    return Value::Type::FloatArray;
+            }
         }
         return Value::Type::Void;
     }
